@@ -7,7 +7,9 @@ use rsdd::builder::cache::{AllIteTable, IteTable, LruIteTable};
 use rsdd::builder::BottomUpBuilder;
 use rsdd::constants::primes;
 use rsdd::builder::bdd::BddBuilder;
-use rsdd::repr::{create_semantic_hash_map, BddPtr, DDNNFPtr, PartialModel, VarLabel, VarOrder};
+use rsdd::repr::{create_semantic_hash_map, BddPtr, DDNNFPtr, PartialModel, VarLabel, VarOrder, WmcParams};
+use rsdd::util::semirings::FiniteField;
+use std::collections::HashMap;
 use serde_json::{json, Value};
 
 fn eval(p: BddPtr, a: &[bool]) -> bool {
@@ -161,6 +163,19 @@ fn run_with<'a, T: IteTable<'a, BddPtr<'a>> + Default>(b: &'a RobddBuilder<'a, T
                 let got = table(r, nv);
                 if got != tx {
                     return Err(format!("op {k} smooth changed the function: {:?} -> {:?}", tx, got));
+                }
+                // counting consequence: smoothed over all variables, the plain (unsmoothed) weighted count equals the
+                // brute-force weighted sum over models for arbitrary, non-normalised weights; unit weights count models
+                if n == nv {
+                    const P: u128 = 1_000_000_007;
+                    for ws in [[(1u128, 1u128); 3], [(2, 3), (5, 7), (11, 13)], [(0, 4), (9, 1), (6, 6)]] {
+                        let mut hm: HashMap<VarLabel, (FiniteField<P>, FiniteField<P>)> = HashMap::new();
+                        for i in 0..nv { hm.insert(VarLabel::new(i as u64), (FiniteField::new(ws[i % 3].0), FiniteField::new(ws[i % 3].1))); }
+                        let got = r.unsmoothed_wmc(&WmcParams::new(hm)).value();
+                        let mut want: u128 = 0;
+                        for m in 0..nm { if tx[m] { let mut w = 1u128; for i in 0..nv { w = w * (if (m >> i) & 1 == 1 { ws[i % 3].1 } else { ws[i % 3].0 }) % P; } want = (want + w) % P; } }
+                        if got != want { return Err(format!("op {k} smooth: weighted count of the smoothed diagram is {got}, the sum over models with weights {:?} is {want}", ws)); }
+                    }
                 }
                 ds.push(r);
                 tts.push(tx);
